@@ -10,8 +10,10 @@
 package c06
 
 import (
+	"context"
 	"crypto/tls"
 	"fmt"
+	"net/http"
 	"runtime"
 	"sync"
 	"sync/atomic"
@@ -52,11 +54,17 @@ type hammerWant struct {
 	ja3, ja4, h2 string
 	ja3ok, ja4ok bool
 	h2param      *fingerprint.HTTP2FingerprintParam
+	req          *http.Request
 }
 
 func execHammer(s HammerScript) *vstat.Violation {
 	var conns []hammerWant
 	seen := map[string]bool{}
+	// one injector set for all connections, as in the proxy; odd workers go through it, even ones call the functions
+	h2param := &fingerprint.HTTP2FingerprintParam{MaxPriorityFrames: uint(s.MaxPrio)}
+	inj3 := fingerprint.NewFingerprintHeaderInjector("X-JA3-Fingerprint", fingerprint.JA3Fingerprint)
+	inj4 := fingerprint.NewFingerprintHeaderInjector("X-JA4-Fingerprint", fingerprint.JA4Fingerprint)
+	inj2 := fingerprint.NewFingerprintHeaderInjector("X-HTTP2-Fingerprint", h2param.HTTP2Fingerprint)
 	for _, c := range s.Conns {
 		rec := plainSNI(c.Spec).Render().Record()
 		if ok, _ := tlsaccept.Parses(rec); !ok {
@@ -66,7 +74,10 @@ func execHammer(s HammerScript) *vstat.Violation {
 		if err != nil {
 			continue
 		}
-		w := hammerWant{md: &metadata.Metadata{ClientHelloRecord: rec}, h2param: &fingerprint.HTTP2FingerprintParam{MaxPriorityFrames: uint(s.MaxPrio)}}
+		ctx, md := metadata.NewContext(context.Background())
+		md.ClientHelloRecord = rec
+		req, _ := http.NewRequestWithContext(ctx, "GET", "https://example.com/", nil)
+		w := hammerWant{md: md, req: req, h2param: h2param}
 		// expected values: the references; a connection for which the function under test fails on its own
 		// (C01's/C02's business) is still useful - it must keep failing, never borrow a neighbour's value
 		w.ja3, w.ja4 = hello.JA3(p), hello.JA4(p)
@@ -134,17 +145,25 @@ func execHammer(s HammerScript) *vstat.Violation {
 				c := &conns[idx%len(conns)]
 				for k := 0; k < rep; k++ {
 					n++
-					v4, e4 := fingerprint.JA4Fingerprint(c.md)
+					var v4, v3, v2 string
+					var e4, e3, e2 error
+					if wk%2 == 1 {
+						v4, e4 = inj4.GetHeaderValue(c.req)
+						v3, e3 = inj3.GetHeaderValue(c.req)
+						v2, e2 = inj2.GetHeaderValue(c.req)
+					} else {
+						v4, e4 = fingerprint.JA4Fingerprint(c.md)
+						v3, e3 = fingerprint.JA3Fingerprint(c.md)
+						v2, e2 = c.h2param.HTTP2Fingerprint(c.md)
+					}
 					if c.ja4ok && (e4 != nil || v4 != c.ja4) || !c.ja4ok && e4 == nil && v4 != c.ja4 && foreign(conns, c, v4, 4) {
 						bad.CompareAndSwap(nil, vstat.Violf("concurrent-evaluation|ja4-of-another-connection", "JA4Fingerprint(connection %d) = %q (err %v), its own value is %q%s", idx%len(conns), v4, e4, c.ja4, whose(conns, v4, 4)))
 						return
 					}
-					v3, e3 := fingerprint.JA3Fingerprint(c.md)
 					if c.ja3ok && (e3 != nil || v3 != c.ja3) || !c.ja3ok && e3 == nil && v3 != c.ja3 && foreign(conns, c, v3, 3) {
 						bad.CompareAndSwap(nil, vstat.Violf("concurrent-evaluation|ja3-of-another-connection", "JA3Fingerprint(connection %d) = %q (err %v), its own value is %q%s", idx%len(conns), v3, e3, c.ja3, whose(conns, v3, 3)))
 						return
 					}
-					v2, e2 := c.h2param.HTTP2Fingerprint(c.md)
 					if e2 != nil || v2 != c.h2 {
 						bad.CompareAndSwap(nil, vstat.Violf("concurrent-evaluation|h2-fingerprint-of-another-connection", "HTTP2Fingerprint(connection %d) = %q (err %v), its own value is %q%s", idx%len(conns), v2, e2, c.h2, whose(conns, v2, 2)))
 						return
